@@ -196,13 +196,17 @@ MODS = [MU, CFG + "_realizations_config", CFG + "_objective_functions_config", C
 def cases_validators(tier):
     for ms in (None, 0, 2, 5):
         yield "realizations/min_success=%s" % ms, {"v": "realizations", "ms": ms}
+        # a realization with weight zero is still a realization: thresholds default and clamp to the ensemble SIZE
+        yield "realizations/min_success=%s/one-zero-weight" % ms, {"v": "realizations", "ms": ms, "zero": True}
     yield "objectives", {"v": "objectives"}
     for tr in (False, True):
         for bad in (False, True):
             yield "nonlinear/transform=%s/inverted=%s" % (tr, bad), {"v": "nonlinear", "tr": tr, "bad": bad}
             yield "variables/transform=%s/inverted=%s" % (tr, bad), {"v": "variables", "tr": tr, "bad": bad}
+            yield "variables/transform=%s/inverted=%s/mask-given-once-as-false" % (tr, bad), {"v": "variables", "tr": tr, "bad": bad, "mask1": False}
     for bad in (False, True):
         yield "linear/inverted=%s" % bad, {"v": "linear", "bad": bad}
+        yield "linear/inverted=%s/both-bounds-given-once-for-two-rows" % bad, {"v": "linear", "bad": bad, "both_scalar": True}
     for tr in (False, True):
         for cols in (2, 3):
             yield "linear-transformation/transform=%s/columns=%d" % (tr, cols), {"v": "linear-apply", "tr": tr, "cols": cols}
@@ -246,6 +250,8 @@ def scn_validators(T, case):
     if v == "realizations":
         cls = _cls(T, sh, "_realizations_config", "RealizationsConfig")
         w = T.real("weights", (3,), lo=0.001)
+        if case.get("zero"):
+            w = T.np.array([w[0], w[1], 0.0 * w[2]])
         me = Model(weights=_imm(T, w), realization_min_success=case["ms"])
         me._immutable()
         out = raw(cls, "_broadcast_normalize_and_check")(me)
@@ -255,6 +261,7 @@ def scn_validators(T, case):
         T.prove("C18.realizations.weight_ratios_preserved", T.all([(T.same if T.symbolic else T.close)(me.weights[i] * S, w[i]) for i in range(3)]))
         want = 3 if case["ms"] is None or case["ms"] > 3 else case["ms"]
         T.prove("C18.realizations.min_success_clamped_to_ensemble_size", me.realization_min_success == want)
+        T.prove("C18.realizations.min_success_is_a_plain_integer", type(me.realization_min_success) is int, repr(type(me.realization_min_success)))
         frozen_ok(T, "C18.realizations", me)
     elif v == "objectives":
         cls = _cls(T, sh, "_objective_functions_config", "ObjectiveFunctionsConfig")
@@ -277,7 +284,7 @@ def scn_validators(T, case):
             fn, name = raw(cls, "_broadcast_and_check"), "C18.nonlinear"
         else:
             cls = _cls(T, sh, "_variables_config", "VariablesConfig")
-            me = Model(initial_values=_imm(T, T.real("x0", (n,))), lower_bounds=_imm(T, lb), upper_bounds=_imm(T, ub), types=None, mask=_imm(T, np.array([True])))
+            me = Model(initial_values=_imm(T, T.real("x0", (n,))), lower_bounds=_imm(T, lb), upper_bounds=_imm(T, ub), types=None, mask=_imm(T, np.array([bool(case.get("mask1", True))])))
             ctx = types.SimpleNamespace(variables=_Scaler(T, n)) if case["tr"] else None
             fn, name = raw(cls, "_broadcast_and_transform"), "C18.variables"
         me._immutable()
@@ -289,15 +296,16 @@ def scn_validators(T, case):
         T.prove(name + ".inverted_bounds_are_rejected", not case["bad"])
         T.prove(name + ".bounds_broadcast_to_full_length", tuple(me.lower_bounds.shape) == (n,) and tuple(me.upper_bounds.shape) == (n,))
         if v == "variables":
-            T.prove(name + ".mask_broadcast_to_full_length", tuple(me.mask.shape) == (n,) and not me.mask.flags.writeable)
+            T.prove(name + ".mask_broadcast_to_full_length", me.mask is not None and tuple(me.mask.shape) == (n,) and not me.mask.flags.writeable
+                    and [bool(b) for b in me.mask] == [bool(case.get("mask1", True))] * n)
         if not case["tr"]:
             T.prove(name + ".values_preserved", T.all([T.same(me.lower_bounds[i], lb[0]) & T.same(me.upper_bounds[i], ub[i]) for i in range(n)]))
         frozen_ok(T, name, me)
     elif v == "linear":
         cls = _cls(T, sh, "_linear_constraints_config", "LinearConstraintsConfig")
         A = T.real("A", (2, 2))
-        lb, ub = T.real("lb", (1,)), T.real("ub", (2,))
-        ok = T.all([lb[0] <= ub[i] for i in range(2)])
+        lb, ub = T.real("lb", (1,)), T.real("ub", (1 if case.get("both_scalar") else 2,))
+        ok = T.all([lb[0] <= ub[i] for i in range(ub.shape[0])])
         T.assume(~ok if (case["bad"] and T.symbolic) else (ok if not case["bad"] else not ok))
         me = Model(coefficients=_imm(T, A), lower_bounds=_imm(T, lb), upper_bounds=_imm(T, ub))
         me._immutable()
@@ -368,9 +376,19 @@ def scn_validators(T, case):
         m = T.real("magnitudes", (1,), lo=0.0)
         variables = types.SimpleNamespace(initial_values=np.zeros(n), lower_bounds=lb, upper_bounds=ub, mask=None, types=None)
 
+        updates = []
+        assignment = _imm(T, np.array([1] * n, dtype=np.intc))  # every variable assigned to the SECOND sampler
+
         def mk(mags, ptypes, btypes):
-            me = Model(perturbation_magnitudes=_imm(T, mags), perturbation_types=_imm(T, np.array(ptypes, dtype=np.ubyte)), boundary_types=_imm(T, np.array(btypes, dtype=np.ubyte)))
-            me.model_copy = lambda update: Model(**{**{k: getattr(me, k) for k in ("perturbation_magnitudes", "perturbation_types", "boundary_types")}, **update})
+            me = Model(perturbation_magnitudes=_imm(T, mags), perturbation_types=_imm(T, np.array(ptypes, dtype=np.ubyte)), boundary_types=_imm(T, np.array(btypes, dtype=np.ubyte)),
+                       samplers=assignment, number_of_perturbations=3, perturbation_min_success=3, merge_realizations=False, seed=(1,))
+
+            def model_copy(update):
+                updates.append(dict(update))
+                return Model(**{**{k: getattr(me, k) for k in ("perturbation_magnitudes", "perturbation_types", "boundary_types", "samplers", "number_of_perturbations",
+                                                               "perturbation_min_success", "merge_realizations", "seed")}, **update})
+
+            me.model_copy = model_copy
             me._immutable()
             return me
 
@@ -381,6 +399,10 @@ def scn_validators(T, case):
         # frame: the frozen object the method is called on is never changed (it may be shared by several configurations)
         T.prove("C18.gradient.fix_perturbations.leaves_the_frozen_object_unchanged", given._is_immutable is True and all(getattr(given, k) is v0 for k, v0 in given0.items())
                 and tuple(given.perturbation_magnitudes.shape) == (1,) and T.same(given.perturbation_magnitudes, m) and [int(t) for t in given.perturbation_types] == [int(t) for t in np.atleast_1d(np.array(case["ptypes"]))][:len(given.perturbation_types)])
+        # ... and nothing but the three perturbation fields differs in the result (sampler assignment, counts, seed are the user's)
+        T.prove("C18.gradient.fix_perturbations.changes_nothing_but_the_perturbation_fields",
+                all(set(u) <= {"perturbation_magnitudes", "perturbation_types", "boundary_types"} for u in updates) and first.samplers is assignment
+                and first.number_of_perturbations == 3 and first.seed == (1,))
         for k, a in first.arrays().items():
             T.prove("C18.gradient.fix_perturbations.stored_arrays_are_read_only", not a.flags.writeable, k)
             T.prove("C18.gradient.fix_perturbations.arrays_have_full_length", tuple(a.shape) == (n,), k)
@@ -458,6 +480,13 @@ def _gen_config(rng, with_tr):
         cfg["nonlinear_constraints"] = {"lower_bounds": [0.0] * k, "upper_bounds": [float("inf")] * k if rng.integers(0, 2) else 1.0}
     if rng.integers(0, 2):
         cfg["linear_constraints"] = {"coefficients": rng.normal(size=(2, n)).tolist(), "lower_bounds": -1.0, "upper_bounds": [1.0, 2.0]}
+    # the tuples of plug-in sections (every reachable object is frozen, those inside tuples too)
+    if rng.integers(0, 3) or True:
+        cfg["realization_filters"] = [{"method": "sort-objective", "options": {"sort": [0], "first": 0, "last": 0}}]
+        cfg["objectives"]["realization_filters"] = [0] * len(cfg["objectives"]["weights"])
+        cfg["function_estimators"] = [{"method": "mean"}, {"method": "stddev"}][: (2 if R > 1 else 1)]
+        cfg["samplers"] = [{"method": "norm"}, {"method": "uniform", "shared": True}]
+        cfg["gradient"]["samplers"] = [int(rng.integers(0, 2)) for _ in range(n)]
     return cfg, n
 
 
